@@ -64,7 +64,7 @@ def r2_matches(ctx, F):
         blocks = set()
         for e in edges:
             blocks |= set(x for x in b.reach([e[1]]) if b.edges_dominate([e], x) or x == e[1])
-        facts = {'loop': None, 'len_eq': False, 'nonempty': False}
+        facts = {'loop': None, 'len_eq': False, 'nonempty': False, 'subset': False, 'intersects': False}
         heads = [c for c in b.calls_to('Iterator::next') if c.bb in blocks and b.in_cycle(c.bb)]
         if len(heads) == 1:
             facts['loop'] = loop_table(b, heads[0], blocks)
@@ -87,10 +87,32 @@ def r2_matches(ctx, F):
                 ca = b.call_at(va.key) if va.kind == 'call' else None
                 if ca is not None and ca.short.endswith('::is_empty') and noref(b.val(ca.args[0])) == V('arg', 2):
                     facts['nonempty'] = True
+                # !own.is_disjoint(discoveries): some element of the own set is discovered
+                if ca is not None and ca.is_('BTreeSet::is_disjoint', 'HashSet::is_disjoint') and set_pair(b, ca):
+                    facts['intersects'] = True
+        for c in b.calls:
+            if c.bb not in blocks or c.dest['l'] != 0 or c.dest['p']:
+                continue
+            # own.is_subset(discoveries): every element of the own set is discovered
+            if c.is_('BTreeSet::is_subset', 'HashSet::is_subset') and set_pair(b, c):
+                facts['subset'] = True
+            # discoveries.first()/iter().next() .is_some(): non-empty
+            if c.is_('Option::is_some'):
+                src = noref(b.trace(b.val(c.args[0]), ('Iterator::next', 'BTreeSet::iter', 'IntoIterator::into_iter')))
+                sc = b.call_at(src.key) if src.kind == 'call' else None
+                if src == V('arg', 2) or (sc is not None and sc.is_('BTreeSet::first', 'BTreeSet::last') and
+                                          noref(b.val(sc.args[0])) == V('arg', 2)):
+                    facts['nonempty'] = True
         ok, why = judge_variant(v, facts)
         ctx.check(ok, rule, 'variant-%s' % v, b0,
                   good='%s is implemented as %s' % (v, why),
                   bad='HasDiscoveries::%s does not mean what its name says: %s (found %s)' % (v, why, facts))
+
+
+def set_pair(b, c):
+    """call c relates the variant's own set (receiver) to the discoveries parameter"""
+    a0, a1 = noref(b.val(c.args[0])), noref(b.val(c.args[1]))
+    return a0.kind == 'arg' and a0.key == 1 and a1 == V('arg', 2)
 
 
 def loop_table(b, head, blocks):
@@ -104,6 +126,10 @@ def loop_table(b, head, blocks):
     # what is iterated
     src = noref(b.trace(b.val(head.args[0]), ('IntoIterator::into_iter', 'Deref::deref')))
     over = repr(src)
+    if src == V('arg', 3):
+        over = 'properties'          # `for p in properties`
+    elif src.kind == 'arg' and src.key == 1:
+        over = 'own-set'
     if src.kind == 'call':
         it = b.call_at(src.key)
         if it is not None and it.args:
@@ -188,7 +214,8 @@ def judge_variant(v, f):
             ok = table_is(want_q, True) and lp.get('over') == 'properties'
             return ok, ('%s over the failure properties (discovery_is_failure) testing '
                         'discoveries.contains(name)' % want_q)
-        ok = table_is(want_q, False) and lp.get('over') == 'own-set'
+        ok = (table_is(want_q, False) and lp.get('over') == 'own-set') or \
+            bool(f.get('subset' if want_q == 'all' else 'intersects'))
         return ok, '%s over the given set testing discoveries.contains(name)' % want_q
     if want_q == 'all':
         ok = f['len_eq'] or (table_is('all', False) and lp.get('over') == 'properties')
